@@ -150,6 +150,39 @@ def o_seed(a):
     return not bad, dict(violated=bad, poisson_mean=lam, norm=norm, kept=len(t))
 
 
+def o_history(a):
+    """one source object asked for several energy windows in a row (a loop over windows in one process): each count spectrum is
+    the one of *its* window — norm against an independent quadrature over [emin, emax], support of the table, sampled energies"""
+    from ixpeobssim.srcmodel.roi import xPointSource
+    from ixpeobssim.srcmodel.polarization import constant
+    from ixpeobssim.srcmodel.spectrum import power_law
+    from ixpeobssim.irf import load_irf_set
+    import simdrive
+    src = xPointSource('p', 30., 45., power_law(a['norm'], a['index']), constant(0.3), constant(0.5))
+    irf_set = load_irf_set(IRF, a.get('du', 1))
+    roi = type('R', (), dict(ra=30., dec=45.))()
+    bad = []
+    for step, (emin, emax) in enumerate(a['windows']):
+        kwargs = simdrive.sim_kwargs(simdrive.config_path('toy_point_source.py'), 'unused.fits', start_met=0., duration=a['T'], emin=emin, emax=emax)
+        cs = src.create_count_spectrum(irf_set.aeff, src.sampling_time_grid(0., a['T']), **kwargs)
+        Ef = numpy.linspace(emin, emax, 6001)
+        from scipy.integrate import simpson
+        quad = float(simpson(a['norm'] * Ef ** (-a['index']) * irf_set.aeff(Ef), x=Ef)) * a['T']
+        norm = float(cs.light_curve.norm())
+        if abs(norm - quad) > 1e-3 * quad:
+            bad.append('step %d, window %s-%s keV: light_curve.norm() = %.6g, ∫S·Aeff over the window = %.6g' % (step, emin, emax, norm, quad))
+        if abs(float(cs.x[0]) - emin) > 1e-9 or abs(float(cs.x[-1]) - emax) > 1e-9:
+            bad.append('step %d: the count spectrum is tabulated on %.3f-%.3f keV for the window %s-%s' % (step, cs.x[0], cs.x[-1], emin, emax))
+        numpy.random.seed(a['seed'] + step)
+        el = src._rvs_seed_event_list(roi, irf_set, **kwargs)
+        E = numpy.array(el.mc_energy(), dtype=float) if len(el.time()) else numpy.array([])
+        if len(E) and (E.min() < emin - 1e-6 or E.max() > emax + 1e-6):
+            bad.append('step %d: true energies span %.3f-%.3f keV for the window %s-%s' % (step, E.min(), E.max(), emin, emax))
+        if abs(len(E) - quad) > 6.5 * math.sqrt(quad) + 2e-3 * quad:
+            bad.append('step %d: %d events for a Poisson mean of %.1f' % (step, len(E), quad))
+    return not bad, dict(violated=bad)
+
+
 def o_vign(a):
     """hit-or-miss vignetting: with fed uniforms the kept mask is exactly u ≤ vign(E, θ[arcmin])"""
     from ixpeobssim.irf import load_vign
@@ -236,7 +269,7 @@ def o_counts(a):
     return not bad, dict(violated=bad, events=len(t))
 
 
-ORACLES = dict(spectrum=o_spectrum, seed=o_seed, vign=o_vign, counts=o_counts)
+ORACLES = dict(spectrum=o_spectrum, seed=o_seed, vign=o_vign, counts=o_counts, history=o_history)
 
 
 def run_oracle(chk, name, a, nontrivial=True):
@@ -289,6 +322,11 @@ def explore(chk, budget=1):
         run_oracle(chk, 'seed', a)
     for du in ((int(g.integers(1, 4)),) if quick else (1, 2, 3)):
         run_oracle(chk, 'vign', dict(du=du, seed=int(g.integers(1, 10 ** 6))))
+    for i in range(1 if quick else 6):
+        wins = [(2., 8.), (1., 12.), (4., 6.), (2., 8.)] if i == 0 else [tuple(sorted(float(x) for x in numpy.round(g.uniform(1., 12., 2), 2))) for _ in range(4)]
+        wins = [w for w in wins if w[1] - w[0] > 0.5]
+        run_oracle(chk, 'history', dict(norm=float(g.uniform(1., 5.)), index=float(g.uniform(1.5, 2.5)), T=float(g.choice([200., 1000.])),
+                                        du=int(g.integers(1, 4)), seed=int(g.integers(1, 10 ** 6)), windows=wins))
     for cfg in (['toy_point_source.py', 'toy_periodic_source.py'] if quick else ['toy_point_source.py', 'toy_periodic_source.py', 'toy_multiple_sources.py', 'toy_disk.py']):
         run_oracle(chk, 'counts', dict(config=cfg, du=int(g.integers(1, 4)), seed=int(g.integers(1, 10 ** 6)), T=1000.))
 
@@ -332,5 +370,6 @@ def replay(body):
         ok, obs = ORACLES[r['oracle']](r['args'])
         out('oracle %s on the recorded input: %s %s' % (r['oracle'], 'holds' if ok else 'FAILS', obs))
         return 0 if ok else 1
-    out(body['what'])
-    return 1
+    import sys
+    import common
+    return common.replay_rerun(sys.modules[__name__], body)
